@@ -14,10 +14,24 @@ EXPLANATION = (
     "contain arg (all of them: collected in a loop over arg_ids, each removed); it is called from Parser::start_custom_arg "
     "only on the CommandLine edge and before matcher.start_custom_arg. R7.5 occurrence boundaries: "
     "ArgMatcher::start_custom_arg opens a value group unconditionally (MatchedArg::new_val_group pushes to vals and raw_vals "
-    "unconditionally). NOT decided: saturation at exactly 255 and the order under arbitrary interleavings."
+    "unconditionally). R7.6 the override relation is stored as declared: Arg::overrides_with pushes the given id and Arg::overrides_with_all extends Arg::overrides with every given id (map(Into::into) only — no filter, so naming the argument itself keeps meaning self-override, as react's `overrides.contains(self)` expects). NOT decided: saturation at exactly 255 and the order under arbitrary interleavings."
 )
 TRUSTED = ["rustc MIR + HIR", "clapfacts"]
 ASSUMPTIONS = ["u8::saturating_add saturates at 255 (std)"]
+
+
+def commandline_only(body, call):
+    """The call sits on the true edge of `source == ValueSource::CommandLine` (an equality with that constant, nothing weaker)."""
+    for e in body.calls_to(r"PartialEq(<[^>]*>)?>?::eq$"):
+        if expr(body, e.args[0]) != "source" and expr(body, e.args[1]) != "source":
+            continue
+        other = e.args[1] if expr(body, e.args[0]) == "source" else e.args[0]
+        br = body.call_branch(e)
+        if br and "CommandLine" in (agg_variants(body, other) or [const_of(body, other) or ""]) and body.edge_dominates((br[0], br[1]), call.bb):
+            return True
+        if br and "CommandLine" in str(const_of(body, other)) and body.edge_dominates((br[0], br[1]), call.bb):
+            return True
+    return False
 
 
 def removal_census(fx, res, rule):
@@ -184,7 +198,7 @@ def run(ctx):
     res.check(len(r1) == 1 and len(r2) == 1 and psc.reaches(r1[0].bb, r2[0].bb) and not psc.reaches(r2[0].bb, r1[0].bb), "R7.4", "overrides-before-start", psc.where(),
               "remove_overrides runs before the new occurrence is recorded", "override removal no longer precedes matcher.start_custom_arg")
     if r1:
-        res.check(any(p == "T" and "source" in e for p, e in bool_facts(psc, r1[0].bb)), "R7.4", "overrides-only-commandline", r1[0].where(), "only command-line occurrences remove overrides", "remove_overrides runs for env/default sources")
+        res.check(commandline_only(psc, r1[0]), "R7.4", "overrides-only-commandline", r1[0].where(), "only command-line occurrences remove overrides", "remove_overrides runs for env/default sources (guard %s)" % guard_strs(psc, r1[0].bb))
     others = [c for b in fx.bodies(r"^clap_builder::") for c in b.calls_to(r"Parser::remove_overrides$") if b is not psc]
     res.check(not others, "R7.4", "single-caller", psc.where(), "remove_overrides has no other caller", "remove_overrides also called from %s" % [c.body.q for c in others])
 
@@ -197,3 +211,18 @@ def run(ctx):
     pu = ng.calls_to(r"Vec::push$")
     okp = len(pu) == 2 and not ng.must_pass([pu[0].bb]) and not ng.must_pass([pu[1].bb]) and not [1 for bl in ng.blocks if bl["term"]["k"] == "switch"]
     res.check(okp, "R7.5", "new_val_group-unconditional", ng.where(), "new_val_group pushes an empty group to vals and raw_vals unconditionally", "MatchedArg::new_val_group pushes conditionally or not to both vectors")
+
+
+    # ---- R7.6 builder setters of the override relation store every id they are given
+    owa = fx.body("clap_builder::builder::arg::Arg::overrides_with_all")
+    ex = [c for c in owa.calls_to(r"Extend(<[^>]*>)?>?::extend$") if expr(owa, c.args[0]) == "self.overrides"]
+    if not ex:
+        res.violation("R7.6", "overrides_with_all-stores-all", owa.where(), "overrides_with_all no longer extends Arg::overrides")
+    for c in ex:
+        e = expr(owa, c.args[1])
+        res.check(re.fullmatch(r"map\(into_iter\(names\),fn:(\w+::)*into\)", e) is not None, "R7.6", "overrides_with_all-stores-all", c.where(), "overrides.extend(names.map(Into::into))",
+                  "overrides_with_all stores %s: some of the given ids (e.g. the argument's own id = self-override) are dropped or rewritten" % e[:100])
+    ow = fx.body("clap_builder::builder::arg::Arg::overrides_with")
+    pu = [c for c in ow.calls_to(r"Vec::push$") if expr(ow, c.args[0]) == "self.overrides"]
+    res.check(len(pu) == 1 and expr(ow, pu[0].args[1]) == "into_option(into_resettable(arg_id))#Some.0" and not [g for g in guard_strs(ow, pu[0].bb) if re.match(r"^[TF]:", g)], "R7.6", "overrides_with-stores", ow.where(),
+              "overrides.push(given id)", "overrides_with no longer stores the id it is given unconditionally")
